@@ -4,6 +4,7 @@ import (
 	"bytes"
 	"errors"
 	"fmt"
+	"math"
 	"os"
 	"path/filepath"
 	"sort"
@@ -907,6 +908,13 @@ func (m *Manager) recoverFromWAL() error {
 
 	// Get recovery options
 	recoveryOpts := memtable.DefaultRecoveryOptions(m.cfg)
+
+	// The log can hold more data than fits into MaxMemTables memtables (log
+	// files are not retired after a flush, so it grows over the life of the
+	// database). Recovery must not fail for that reason: a failed recovery moves
+	// every log file aside and starts empty. The recovered tables beyond the
+	// active one are flushed right after
+	recoveryOpts.MaxMemTables = math.MaxInt
 
 	// Recover memtables from WAL
 	memTables, maxSeqNum, err := memtable.RecoverFromWAL(m.cfg, recoveryOpts)
